@@ -741,6 +741,30 @@ func ruleEFF4(w *World) []Ob {
 			}
 			for _, g := range guardsOf(r.Block()) {
 				cond, pol := flattenCond(g.Cond, g.Pol)
+				// strings.Index*(n.name, "/") >= 0 (or != -1, > -1) is the same test
+				if b, isB := cond.(*ssa.BinOp); isB {
+					if ic, isC := b.X.(*ssa.Call); isC {
+						switch calleeFullName(ic.Common()) {
+						case "strings.IndexByte", "strings.Index", "strings.IndexRune", "strings.IndexAny":
+							s, isStr := constString(ic.Common().Args[1])
+							if !isStr {
+								if k, isInt := constInt(stripConv(ic.Common().Args[1])); isInt && k == '/' {
+									s = "/"
+								}
+							}
+							_, f, isField := fieldOfLoad(ic.Common().Args[0])
+							if k, isK := constInt(b.Y); isK && strings.Contains(s, "/") && isField && f == "name" {
+								op := b.Op
+								if !pol {
+									op = negateOp(op)
+								}
+								if (op == token.GEQ && k == 0) || (op == token.NEQ && k == -1) || (op == token.GTR && k == -1) {
+									slashOK = true
+								}
+							}
+						}
+					}
+				}
 				call, ok := cond.(*ssa.Call)
 				if !ok {
 					continue
